@@ -11,7 +11,7 @@ Record shape_sound (sh : shape) : Prop := {
   ss_wcb : chk sh WCbeBytes = true; ss_wcs : chk sh WCbeString = true;
   ss_wtb : chk sh WCteBytes = true; ss_wtn : chk sh WCteStringNotLF = true; ss_wtl : chk sh WCteStringLF = true;
   ss_u8 : chk sh RCbeUint8 = true; ss_te : chk sh RCbeTypeOrEOF = true; ss_ib : chk sh RCbeIntoBuffer = true;
-  ss_fw : chk sh RCbeForward = true; ss_pr : chk sh RCbePropagate = true;
+  ss_fw : chk sh RCbeRead = true; ss_pr : chk sh RCbePropagate = true;
   ss_uf : chk sh RUlebFirst = true; ss_uc : sh RUlebCont <> Unchecked;
   ss_cb : chk sh RCtByte = true; ss_cf : chk sh RCtFill = true;
   ss_cc : chk sh RCteCopy = true; ss_pu : chk sh RCePeekUnmarshal = true; ss_pd : chk sh RCePeekDecode = true;
@@ -255,6 +255,7 @@ Proof. intro H. unfold err_at. rewrite H. reflexivity. Qed.
 Section SourceProofs.
   Variable S : Type.
   Variable step : S -> N -> S * rres.
+  Variable spin : S -> bool.
   Variable sh : shape.
   Hypothesis Hss : shape_sound sh.
 
@@ -348,16 +349,12 @@ Section SourceProofs.
     | URet e _ => e = ENone -> Inv st'
     end.
 
-  Lemma fwd_id e : fwd sh e = e.
-  Proof. unfold fwd. apply err_at_checked. sites. Qed.
-
   Lemma uleb_loop_inv fuel : forall st acc st' u,
     Inv st -> uleb_loop S step sh fuel st acc = (st', u) -> ures_ok st' u.
   Proof.
     induction fuel as [|f IH]; intros st acc st' u HI H; cbn [uleb_loop] in H.
     - inversion H; subst. exact HI.
     - destruct (rd S step st RUlebCont 1) as [st1 r1] eqn:Hrd.
-      rewrite fwd_id in H.
       assert (Hc : sh RUlebCont = Checked \/ sh RUlebCont = Weak).
       { destruct Hss. destruct (sh RUlebCont); auto. congruence. }
       destruct Hc as [Hc|Hc]; unfold chk in H; rewrite Hc in H; cbn [andb] in H.
@@ -383,7 +380,7 @@ Section SourceProofs.
     Inv st -> uleb S step sh fuel st = (st', u) -> ures_ok st' u.
   Proof.
     unfold uleb. intros HI. destruct (rd S step st RUlebFirst 1) as [st1 r1] eqn:Hrd.
-    rewrite fwd_id, err_at_checked by sites.
+    rewrite err_at_checked by sites.
     destruct (rr_err r1) eqn:Ee; intro H; try (inversion H; subst; cbn; discriminate).
     assert (HI1 : Inv st1) by (rdnf).
     destruct (rr_data r1) as [|b t]; [inversion H; subst; intros _; exact HI1|].
@@ -398,7 +395,7 @@ Section SourceProofs.
     - inversion H; subst. exact HI.
     - destruct (n =? 0); [inversion H; subst; intros _; exact HI|].
       destruct (rd S step st RCtFill n) as [st1 r1] eqn:Hrd.
-      rewrite fwd_id, err_at_checked in H by sites.
+      rewrite err_at_checked in H by sites.
       destruct (rr_err r1) eqn:Ee; try (inversion H; subst; cbn; discriminate).
       eapply IH; [|exact H]. rdnf.
   Qed.
@@ -407,7 +404,7 @@ Section SourceProofs.
     Inv st -> ct_byte S step sh st = (st', u) -> ures_ok st' u.
   Proof.
     unfold ct_byte. intros HI. destruct (rd S step st RCtByte 1) as [st1 r1] eqn:Hrd.
-    rewrite fwd_id, err_at_checked by sites. intro H. inversion H; subst. cbn.
+    rewrite err_at_checked by sites. intro H. inversion H; subst. cbn.
     intro Ee. rdnf.
   Qed.
 
@@ -454,38 +451,46 @@ Section SourceProofs.
     Variable dfinal : D -> bool.
 
     Lemma cbe_loop_inv fuel : forall st d st' o,
-      Inv st -> cbe_loop S step sh D dnext dfeed dfinal fuel st d = (st', o) -> o <> Panic ->
-      Inv st' /\ (o = Ok tt -> Forall nothard (rs_tr st') -> Pf (rs_src st')).
+      Inv st -> cbe_loop S step spin sh D dnext dfeed dfinal fuel st d = (st', o) -> o = Ok tt ->
+      Inv st' /\ (Forall nothard (rs_tr st') -> Pf (rs_src st')).
     Proof.
-      induction fuel as [|f IH]; intros st d st' o HI H Hn; cbn [cbe_loop] in H.
-      - inversion H; subst. split; [exact HI | discriminate].
-      - destruct (dnext d) as [p|]; [|inversion H; subst; congruence].
+      induction fuel as [|f IH]; intros st d st' o HI H Ho; cbn [cbe_loop] in H.
+      - inversion H; subst. discriminate.
+      - destruct (dnext d) as [p|]; [|inversion H; subst; discriminate].
         destruct (run_prim S step sh f p st) as [st1 r1] eqn:Ep.
+        destruct (spin (rs_src st1)); [inversion H; subst; discriminate|].
         destruct r1 as [[bs|]| |].
         + apply run_prim_inv in Ep; [|exact HI|discriminate]. destruct Ep as [HI1 _].
           eapply IH; eauto.
         + apply run_prim_inv in Ep; [|exact HI|discriminate]. destruct Ep as [HI1 Hf].
-          inversion H; subst. split; [exact HI1|]. intros _ Hall. apply Hf; auto.
-        + inversion H; subst. congruence.
-        + apply run_prim_inv in Ep; [|exact HI|discriminate]. destruct Ep as [HI1 _].
-          inversion H; subst. split; [exact HI1 | discriminate].
+          inversion H; subst. split; [exact HI1|]. intros Hall. apply Hf; auto.
+        + inversion H; subst. discriminate.
+        + inversion H; subst. discriminate.
     Qed.
 
     Lemma cbe_decode_inv fuel st d st' o :
-      Inv st -> cbe_decode S step sh D dnext dfeed dfinal false fuel st d = (st', o) -> o <> Err ->
-      Inv st' /\ (o = Ok tt -> Forall nothard (rs_tr st') -> Pf (rs_src st')).
+      Inv st -> cbe_decode S step spin sh D dnext dfeed dfinal false fuel st d = (st', o) -> o = Ok tt ->
+      Inv st' /\ (Forall nothard (rs_tr st') -> Pf (rs_src st')).
     Proof.
       unfold cbe_decode. intros HI.
-      destruct (cbe_loop S step sh D dnext dfeed dfinal fuel st d) as [st1 o1] eqn:El.
-      intros H Hn. inversion H; subst; clear H.
-      assert (Hg : guard sh GCbeDecode false o1 = o1 \/ o1 = Panic).
-      { destruct o1; auto. }
-      destruct Hg as [Hg|Hg].
-      - rewrite Hg in *. eapply cbe_loop_inv; eauto.
-        intro Ep. subst o1. rewrite guard_panic_err in Hg by sites. discriminate.
-      - subst o1. rewrite guard_panic_err in Hn by sites. congruence.
+      destruct (cbe_loop S step spin sh D dnext dfeed dfinal fuel st d) as [st1 o1] eqn:El.
+      intros H Ho. injection H as Hst Hg. subst st1. rewrite Ho in Hg.
+      eapply cbe_loop_inv; [exact HI | exact El |].
+      destruct o1 as [[]| | |]; unfold guard in Hg; try congruence.
+      destruct (chk sh GCbeDecode && negb false); discriminate.
     Qed.
 
+    Lemma cbe_unmarshal_inv fuel st d st' o :
+      Inv st -> cbe_unmarshal S step spin sh D dnext dfeed dfinal false fuel st d = (st', o) -> o = Ok tt ->
+      Inv st' /\ (Forall nothard (rs_tr st') -> Pf (rs_src st')).
+    Proof.
+      unfold cbe_unmarshal. intros HI.
+      destruct (cbe_decode S step spin sh D dnext dfeed dfinal false fuel st d) as [st1 o1] eqn:Ed.
+      intros H Ho. injection H as Hst Hg. subst st1. rewrite Ho in Hg.
+      eapply cbe_decode_inv; [exact HI | exact Ed |].
+      destruct o1 as [[]| | |]; unfold guard in Hg; try congruence.
+      destruct (chk sh GCbeUnmarshal && negb false); discriminate.
+    Qed.
   End DecoderProofs.
 
   (* io.Copy without WriteTo *)
@@ -522,55 +527,204 @@ Section SourceProofs.
 End SourceProofs.
 
 (* ------------------------------------------------------------------------- *)
-(* Direct entry points *)
+(* small facts *)
 
 Lemma guard_not_panic {A} sh scope (o : outcome A) : chk sh scope = true -> guard sh scope false o <> Panic.
 Proof. intro H. unfold guard. destruct o; try discriminate. rewrite H. discriminate. Qed.
 
-Lemma unm_dec_not_err sh scope (o1 : outcome unit) :
-  guard sh scope false (after_decode true o1) <> Err -> o1 <> Err.
+Lemma guard_not_err sh scope (o1 : outcome unit) : guard sh scope false o1 <> Err -> o1 <> Err.
 Proof. intros H E. subst. apply H. reflexivity. Qed.
 
-Lemma unm_dec_ok sh scope (o1 : outcome unit) :
-  chk sh scope = true -> guard sh scope false (after_decode true o1) = Ok tt -> o1 = Ok tt.
-Proof. intros Hc. destruct o1 as [[]| | |]; cbn; try congruence. rewrite Hc. discriminate. Qed.
+Lemma outcome_err_dec (o : outcome unit) : o = Err \/ o <> Err.
+Proof. destruct o; auto; right; discriminate. Qed.
 
-Definition triv_inv S sh (st : rst S) : Forall (ok_event sh) (rs_tr st) ->
-  Inv S sh (fun _ => True) (fun _ => True) st.
-Proof. intro H. constructor; auto. apply Forall_forall. auto. Qed.
+Lemma nothard_no_exists tr : Forall nothard tr -> Exists hard tr -> False.
+Proof.
+  intros Ha He. apply Exists_exists in He. destruct He as (ev & Hin & Hh).
+  rewrite Forall_forall in Ha. exact (Ha ev Hin Hh).
+Qed.
 
-Section Direct.
-  Variable S : Type.
-  Variable step : S -> N -> S * rres.
+Lemma exists_hard_dec tr : Exists hard tr \/ Forall nothard tr.
+Proof.
+  induction tr as [|ev r IH]; [right; constructor|].
+  destruct IH as [IH|IH]; [left; right; exact IH|].
+  destruct (rr_err (re_res ev)) eqn:Ee.
+  - right. constructor; [unfold nothard, hard; congruence | exact IH].
+  - right. constructor; [unfold nothard, hard; congruence | exact IH].
+  - left. left. exact Ee.
+Qed.
+
+Lemma rd_utr S step (u : rst S) site n u' r :
+  rd S step u site n = (u', r) ->
+  rs_tr u' = {| re_site := site; re_len := n; re_res := r |} :: rs_tr u /\ step (rs_src u) n = (rs_src u', r).
+Proof. unfold rd. destruct (step (rs_src u) n). intro H. inversion H; subst. split; reflexivity. Qed.
+
+Definition rd0 {S} (s0 : S) : rst S := {| rs_src := s0; rs_tr := [] |}.
+
+(* the ULEB continuation read never sees data together with an error *)
+Definition Eclean (ev : revent) : Prop := re_site ev = RUlebCont -> hard ev -> rr_data (re_res ev) = [].
+
+Lemma client_nothard sh (tr : list revent) :
+  Forall (ok_event sh) tr -> Forall Eclean tr -> Forall nothard tr.
+Proof.
+  intros Hok HE. rewrite Forall_forall in *. intros ev Hin Hh.
+  destruct (Hok ev Hin Hh) as (_ & Hs & Hd). apply Hd. exact (HE ev Hin Hs Hh).
+Qed.
+
+(* ------------------------------------------------------------------------- *)
+(* The normalising layer (cbe Reader.Read) over any source T *)
+
+Section NormProofs.
+  Variable T : Type.
+  Variable stepT : T -> N -> T * rres.
   Variable sh : shape.
-  Hypothesis Hsh : all_checked_but_uleb sh = true.
+  Hypothesis Hss : shape_sound sh.
+  Variable P Pf : T -> Prop.
+  Hypothesis Hpres : forall s n s' r, P s -> stepT s n = (s', r) -> rr_err r <> EFail -> P s'.
+  Hypothesis Heof : forall s n s' r, P s -> stepT s n = (s', r) -> rr_err r = EEOF -> Pf s'.
+
+  Definition mtr (b : nst T) : list revent := rs_tr (n_under b).
+  (* a failure of the source is remembered; an EOF of the source was a real EOF *)
+  Record PN (b : nst T) : Prop := {
+    pn_hard : Exists hard (mtr b) -> n_pend b = EFail;
+    pn_P : Forall nothard (mtr b) -> P (rs_src (n_under b));
+    pn_eof : n_pend b = EEOF -> Pf (rs_src (n_under b))
+  }.
+  Definition PfN (b : nst T) : Prop := Forall nothard (mtr b) /\ Pf (rs_src (n_under b)).
+
+  Definition n_res (b' : nst T) (r : rres) : Prop :=
+    (rr_err r <> EFail -> PN b') /\ (rr_err r = EEOF -> PfN b') /\ (rr_data r <> [] -> rr_err r = ENone).
+
+  Lemma PN_intro_nohard (b : nst T) :
+    Forall nothard (mtr b) -> P (rs_src (n_under b)) -> (n_pend b = EEOF -> Pf (rs_src (n_under b))) -> PN b.
+  Proof.
+    intros Hn HP He. constructor; auto.
+    intro Hex. exfalso. eapply nothard_no_exists; eassumption.
+  Qed.
+
+  Lemma n_retry_res i : forall b n b' r,
+    Forall nothard (mtr b) -> P (rs_src (n_under b)) -> n_pend b = ENone ->
+    n_retry T stepT sh i b n = (b', r) -> n_res b' r.
+  Proof.
+    induction i as [|j IH]; intros b n b' r Hn HP Hp H; cbn [n_retry] in H.
+    - inversion H; subst. unfold n_res. cbn [rr_err rr_data]. split; [|split].
+      + intros _. apply PN_intro_nohard; cbn; auto. rewrite Hp. discriminate.
+      + discriminate.
+      + congruence.
+    - destruct (rd T stepT (n_under b) RCbeRead n) as [u' r0] eqn:Hrd.
+      apply rd_utr in Hrd. destruct Hrd as [Htr Hst].
+      rewrite err_at_checked in H by (destruct Hss; assumption).
+      assert (Hstep : rr_err r0 <> EFail -> Forall nothard (rs_tr u') /\ P (rs_src u')).
+      { intro Hne. split.
+        - rewrite Htr. constructor; [exact Hne | exact Hn].
+        - eapply Hpres; [exact HP | exact Hst | exact Hne]. }
+      destruct (rr_data r0) as [|x t] eqn:Ed.
+      + destruct (rr_err r0) eqn:Ee.
+        * destruct Hstep as [Hn' HP']; [discriminate|].
+          eapply IH; [| | |exact H]; cbn; auto.
+        * destruct Hstep as [Hn' HP']; [discriminate|].
+          assert (HPf : Pf (rs_src u')) by (eapply Heof; [exact HP | exact Hst | exact Ee]).
+          inversion H; subst. unfold n_res. cbn [rr_err rr_data]. split; [|split].
+          -- intros _. apply PN_intro_nohard; cbn; auto.
+          -- intros _. split; cbn; auto.
+          -- congruence.
+        * inversion H; subst. unfold n_res. cbn [rr_err rr_data]. split; [|split]; congruence.
+      + inversion H; subst. unfold n_res. cbn [rr_err rr_data]. split; [|split].
+        * intros _. constructor; cbn.
+          -- intro Hex. unfold mtr in Hex. cbn in Hex. rewrite Htr in Hex.
+             inversion Hex as [? ? Hh|? ? Ht]; subst; [exact Hh | exfalso; eapply nothard_no_exists; eassumption].
+          -- intro Hall. unfold mtr in Hall. cbn in Hall. rewrite Htr in Hall. inversion Hall as [|? ? Hh Ht]; subst.
+             eapply Hpres; [exact HP | exact Hst | exact Hh].
+          -- intro Ee. eapply Heof; [exact HP | exact Hst | exact Ee].
+        * discriminate.
+        * reflexivity.
+  Qed.
+
+  Lemma n_read_res b n b' r : PN b -> n_read T stepT sh b n = (b', r) -> n_res b' r.
+  Proof.
+    intros HPN H. pose proof HPN as [Hh HP He]. unfold n_read in H. destruct (n =? 0).
+    - inversion H; subst. unfold n_res. cbn [rr_err rr_data]. split; [intros _; exact HPN | split; congruence].
+    - destruct (n_pend b) eqn:Ep.
+      + assert (Hn : Forall nothard (mtr b)).
+        { destruct (exists_hard_dec (mtr b)) as [Hex|Hn]; [|exact Hn]. apply Hh in Hex. congruence. }
+        eapply n_retry_res; [exact Hn | apply HP; exact Hn | exact Ep | exact H].
+      + inversion H; subst. unfold n_res. cbn [rr_err rr_data]. split; [intros _; exact HPN | split; [|congruence]].
+        intros _. split; [|apply He; reflexivity].
+        destruct (exists_hard_dec (mtr b')) as [Hex|Hn]; [|exact Hn]. apply Hh in Hex. congruence.
+      + inversion H; subst. unfold n_res. cbn [rr_err rr_data]. split; [|split]; congruence.
+  Qed.
+
+  Lemma n_read_pres b n b' r : PN b -> n_read T stepT sh b n = (b', r) -> rr_err r <> EFail -> PN b'.
+  Proof. intros HP H. apply (n_read_res _ _ _ _ HP H). Qed.
+  Lemma n_read_eof b n b' r : PN b -> n_read T stepT sh b n = (b', r) -> rr_err r = EEOF -> PfN b'.
+  Proof. intros HP H. apply (n_read_res _ _ _ _ HP H). Qed.
+  Lemma n_retry_clean i : forall b n b' r,
+    n_retry T stepT sh i b n = (b', r) -> rr_data r <> [] -> rr_err r = ENone.
+  Proof.
+    induction i as [|j IH]; intros b n b' r H; cbn [n_retry] in H.
+    - inversion H; subst. cbn. congruence.
+    - destruct (rd T stepT (n_under b) RCbeRead n) as [u' r0].
+      destruct (rr_data r0) as [|x t].
+      + destruct (err_at sh RCbeRead (rr_err r0)); [eapply IH; exact H | inversion H; subst; cbn; congruence ..].
+      + inversion H; subst. reflexivity.
+  Qed.
+
+  Lemma n_read_E s n s' r site :
+    n_read T stepT sh s n = (s', r) -> (site = RUlebCont -> n = 1) ->
+    Eclean {| re_site := site; re_len := n; re_res := r |}.
+  Proof.
+    intros H _ _ Hh. cbn in *. unfold hard in Hh. cbn in Hh.
+    destruct (rr_data r) eqn:Ed; [reflexivity|exfalso].
+    assert (He : rr_err r = ENone); [|congruence].
+    unfold n_read in H. destruct (n =? 0); [inversion H; subst; cbn in Ed; discriminate|].
+    destruct (n_pend s); [|inversion H; subst; cbn in Ed; discriminate ..].
+    eapply n_retry_clean; [exact H | rewrite Ed; discriminate].
+  Qed.
+
+  (* The CBE entry points over the layer: success means the source never failed (and Pf of its state). *)
   Variable D : Type.
   Variable dnext : D -> action.
   Variable dfeed : D -> bytes -> D.
   Variable dfinal : D -> bool.
 
+  Lemma cbe_entry_ok unm fuel (u : rst T) d u' o :
+    rs_tr u = [] -> P (rs_src u) ->
+    cbe_entry T stepT sh D dnext dfeed dfinal unm false fuel u d = (u', o) ->
+    o = Ok tt -> Forall nothard (rs_tr u') /\ Pf (rs_src u').
+  Proof.
+    intros Htr HP0. unfold cbe_entry.
+    set (st0 := {| rs_src := norm0 T u; rs_tr := [] |}).
+    assert (HI0 : Inv (nst T) sh PN Eclean st0).
+    { constructor; cbn; [constructor | constructor |]. intros _. constructor; cbn.
+      - unfold mtr. cbn. rewrite Htr. intro Hex. inversion Hex.
+      - intros _. exact HP0.
+      - discriminate. }
+    assert (Hfin : forall st', Inv (nst T) sh PN Eclean st' /\ (Forall nothard (rs_tr st') -> PfN (rs_src st')) ->
+                               PfN (rs_src st')).
+    { intros st' [[Hok HE _] Hf]. apply Hf. apply (client_nothard sh); assumption. }
+    destruct unm.
+    - destruct (cbe_unmarshal _ _ _ _ _ _ _ _ _ _ _ _) as [st' o'] eqn:Er. intros H Ho. inversion H; subst.
+      apply Hfin.
+      eapply (cbe_unmarshal_inv (nst T) (n_read T stepT sh) n_spin sh Hss PN PfN Eclean); eauto using n_read_pres, n_read_eof, n_read_E.
+    - destruct (cbe_decode _ _ _ _ _ _ _ _ _ _ _ _) as [st' o'] eqn:Er. intros H Ho. inversion H; subst.
+      apply Hfin.
+      eapply (cbe_decode_inv (nst T) (n_read T stepT sh) n_spin sh Hss PN PfN Eclean); eauto using n_read_pres, n_read_eof, n_read_E.
+  Qed.
+End NormProofs.
+
+(* ------------------------------------------------------------------------- *)
+(* CTE on the caller's reader (io.Copy): every failure is reported as the returned error *)
+
+Definition triv_inv S sh (st : rst S) : Forall (ok_event sh) (rs_tr st) ->
+  Inv S sh (fun _ => True) (fun _ => True) st.
+Proof. intro H. constructor; auto. apply Forall_forall. auto. Qed.
+
+Section DirectCte.
+  Variable S : Type.
+  Variable step : S -> N -> S * rres.
+  Variable sh : shape.
+  Hypothesis Hsh : all_checked_but_uleb sh = true.
   Let Hss : shape_sound sh := shape_sound_of_but_uleb sh Hsh.
-
-  Lemma cbe_decode_ok_events fuel s0 d st' o :
-    cbe_decode S step sh D dnext dfeed dfinal false fuel {| rs_src := s0; rs_tr := [] |} d = (st', o) ->
-    o <> Err -> Forall (ok_event sh) (rs_tr st').
-  Proof.
-    intros H Hn.
-    eapply (cbe_decode_inv S step sh Hss (fun _ => True) (fun _ => True) (fun _ => True)) in H; auto.
-    - destruct H as [[Hok _ _] _]. exact Hok.
-    - apply triv_inv. constructor.
-  Qed.
-
-  Lemma cbe_unmarshal_ok_events fuel s0 d st' o :
-    cbe_unmarshal S step sh D dnext dfeed dfinal true false fuel {| rs_src := s0; rs_tr := [] |} d = (st', o) ->
-    o <> Err -> Forall (ok_event sh) (rs_tr st').
-  Proof.
-    unfold cbe_unmarshal.
-    destruct (cbe_decode S step sh D dnext dfeed dfinal false fuel _ d) as [st1 o1] eqn:Ed.
-    intros H Hn. inversion H; subst; clear H.
-    eapply cbe_decode_ok_events; [exact Ed|]. eapply unm_dec_not_err; exact Hn.
-  Qed.
-
   Variable parse : bytes -> bool.
 
   Lemma cte_decode_no_failure fuel s0 st' o :
@@ -584,34 +738,15 @@ Section Direct.
   Qed.
 
   Lemma cte_unmarshal_no_failure fuel s0 st' o :
-    cte_unmarshal S step sh parse true false fuel {| rs_src := s0; rs_tr := [] |} = (st', o) ->
+    cte_unmarshal S step sh parse false fuel {| rs_src := s0; rs_tr := [] |} = (st', o) ->
     o <> Err -> Forall (ok_event sh) (rs_tr st').
   Proof.
     unfold cte_unmarshal.
     destruct (cte_decode S step sh parse false fuel _) as [st1 o1] eqn:Ed.
     intros H Hn. inversion H; subst; clear H.
-    eapply cte_decode_no_failure; [exact Ed|]. eapply unm_dec_not_err; exact Hn.
+    eapply cte_decode_no_failure; [exact Ed|]. eapply guard_not_err; exact Hn.
   Qed.
-End Direct.
-
-Lemma outcome_err_dec (o : outcome unit) : o = Err \/ o <> Err.
-Proof. destruct o; auto; right; discriminate. Qed.
-
-(* an event that must end the operation *)
-Definition fatal (ev : revent) : Prop :=
-  hard ev /\ ~ (re_site ev = RUlebCont /\ dirty ev).
-
-Lemma ok_events_no_fatal sh tr : Forall (ok_event sh) tr -> Exists fatal tr -> False.
-Proof.
-  intros Hall Hex. apply Exists_exists in Hex. destruct Hex as (ev & Hin & Hh & Hnd).
-  rewrite Forall_forall in Hall. destruct (Hall ev Hin Hh) as (_ & Hs & Hd). apply Hnd. split; assumption.
-Qed.
-
-Lemma ok_events_no_hard sh tr : sh RUlebCont = Checked -> Forall (ok_event sh) tr -> Exists hard tr -> False.
-Proof.
-  intros Hc Hall Hex. apply Exists_exists in Hex. destruct Hex as (ev & Hin & Hh).
-  rewrite Forall_forall in Hall. destruct (Hall ev Hin Hh) as (Hw & _). congruence.
-Qed.
+End DirectCte.
 
 (* CTE sites are never the ULEB site: every failure is fatal there *)
 Lemma io_copy_sites S step fuel : forall st acc st' u,
@@ -647,33 +782,12 @@ Section BufioProofs.
   (* a failure of the caller's reader that has not been handed on is pending in b.err *)
   Definition Pb (b : bst S) : Prop := Exists hard (utr b) -> b_err b = EFail.
   Definition Pfb (b : bst S) : Prop := Forall nothard (utr b).
-  Definition Eb (ev : revent) : Prop := re_site ev = RUlebCont -> hard ev -> rr_data (re_res ev) = [].
-
-  Lemma nothard_no_exists tr : Forall nothard tr -> Exists hard tr -> False.
-  Proof.
-    intros Ha He. apply Exists_exists in He. destruct He as (ev & Hin & Hh).
-    rewrite Forall_forall in Ha. exact (Ha ev Hin Hh).
-  Qed.
-
-  Lemma exists_hard_dec tr : Exists hard tr \/ Forall nothard tr.
-  Proof.
-    induction tr as [|ev r IH]; [right; constructor|].
-    destruct IH as [IH|IH]; [left; right; exact IH|].
-    destruct (rr_err (re_res ev)) eqn:Ee.
-    - right. constructor; [unfold nothard, hard; congruence | exact IH].
-    - right. constructor; [unfold nothard, hard; congruence | exact IH].
-    - left. left. exact Ee.
-  Qed.
-
-  Lemma rd_utr (u : rst S) site n u' r :
-    rd S step u site n = (u', r) -> rs_tr u' = {| re_site := site; re_len := n; re_res := r |} :: rs_tr u.
-  Proof. unfold rd. destruct (step (rs_src u) n). intro H. inversion H; subst. reflexivity. Qed.
 
   Lemma b_fill_loop_P i : forall b, Forall nothard (utr b) -> Pb (b_fill_loop S step i b).
   Proof.
     induction i as [|j IH]; intros b Hn; cbn [b_fill_loop].
     - intros _. reflexivity.
-    - destruct (rd S step (b_under b) RBufioFill _) as [u' r] eqn:Hrd. apply rd_utr in Hrd.
+    - destruct (rd S step (b_under b) RBufioFill _) as [u' r] eqn:Hrd. apply rd_utr in Hrd; destruct Hrd as [Hrd _].
       destruct (rr_err r) eqn:Ee.
       + assert (Hn' : Forall nothard (rs_tr u')).
         { rewrite Hrd. constructor; [unfold nothard, hard; cbn; congruence | exact Hn]. }
@@ -726,10 +840,10 @@ Section BufioProofs.
       + assert (Hno : Forall nothard (utr b)).
         { destruct (exists_hard_dec (utr b)) as [Hex|Hno]; [|exact Hno]. apply HP in Hex. congruence. }
         destruct (bufio_size <=? n).
-        * destruct (rd S step (b_under b) RBufioDirect n) as [u' r0] eqn:Hrd. apply rd_utr in Hrd.
+        * destruct (rd S step (b_under b) RBufioDirect n) as [u' r0] eqn:Hrd. apply rd_utr in Hrd; destruct Hrd as [Hrd _].
           inversion H; subst. intro Hex. exfalso. unfold utr in Hex. cbn in Hex. rewrite Hrd in Hex.
           inversion Hex as [? ? Hh|? ? Ht]; subst; [exact (Hne Hh) | eapply nothard_no_exists; eassumption].
-        * destruct (rd S step (b_under b) RBufioRead bufio_size) as [u' r0] eqn:Hrd. apply rd_utr in Hrd.
+        * destruct (rd S step (b_under b) RBufioRead bufio_size) as [u' r0] eqn:Hrd. apply rd_utr in Hrd; destruct Hrd as [Hrd _].
           destruct (rr_data r0) as [|y t0].
           -- inversion H; subst. cbn in Hne. intro Hex. exfalso. unfold utr in Hex. cbn in Hex. rewrite Hrd in Hex.
              inversion Hex as [? ? Hh|? ? Ht]; subst; [exact (Hne Hh) | eapply nothard_no_exists; eassumption].
@@ -749,10 +863,10 @@ Section BufioProofs.
       + assert (Hno : Forall nothard (utr b)).
         { destruct (exists_hard_dec (utr b)) as [Hex|Hno]; [|exact Hno]. apply HP in Hex. congruence. }
         destruct (bufio_size <=? n).
-        * destruct (rd S step (b_under b) RBufioDirect n) as [u' r0] eqn:Hrd. apply rd_utr in Hrd.
+        * destruct (rd S step (b_under b) RBufioDirect n) as [u' r0] eqn:Hrd. apply rd_utr in Hrd; destruct Hrd as [Hrd _].
           inversion H; subst. unfold Pfb, utr. cbn. rewrite Hrd.
           constructor; [unfold nothard, hard; cbn; congruence | exact Hno].
-        * destruct (rd S step (b_under b) RBufioRead bufio_size) as [u' r0] eqn:Hrd. apply rd_utr in Hrd.
+        * destruct (rd S step (b_under b) RBufioRead bufio_size) as [u' r0] eqn:Hrd. apply rd_utr in Hrd; destruct Hrd as [Hrd _].
           destruct (rr_data r0) as [|y t0].
           -- inversion H; subst. cbn in He. unfold Pfb, utr. cbn. rewrite Hrd.
              constructor; [unfold nothard, hard; cbn; congruence | exact Hno].
@@ -762,57 +876,6 @@ Section BufioProofs.
       + inversion H; subst. cbn in He. discriminate.
     - destruct (take_n n (x :: t)). inversion H; subst. cbn in He. discriminate.
   Qed.
-
-  Lemma b_read_E b n b' r site :
-    b_read S step b n = (b', r) -> (site = RUlebCont -> n = 1) ->
-    Eb {| re_site := site; re_len := n; re_res := r |}.
-  Proof.
-    intros H Hn Hs Hh. cbn in *. eapply b_read_clean; [exact H | | exact Hh].
-    rewrite (Hn Hs). reflexivity.
-  Qed.
-
-  (* The CBE decoder over bufio: success means that the caller's reader never failed. *)
-  Section UniCbe.
-    Variable sh : shape.
-    Hypothesis Hss : shape_sound sh.
-    Variable D : Type.
-    Variable dnext : D -> action.
-    Variable dfeed : D -> bytes -> D.
-    Variable dfinal : D -> bool.
-
-    Lemma client_nothard (tr : list revent) :
-      Forall (ok_event sh) tr -> Forall Eb tr -> Forall nothard tr.
-    Proof.
-      intros Hok HE. rewrite Forall_forall in *. intros ev Hin Hh.
-      destruct (Hok ev Hin Hh) as (_ & Hs & Hd). apply Hd. exact (HE ev Hin Hs Hh).
-    Qed.
-
-    Lemma uni_cbe_decode b1 fuel d st' o :
-      Pb b1 ->
-      cbe_decode (bst S) (b_read S step) sh D dnext dfeed dfinal false fuel {| rs_src := b1; rs_tr := [] |} d = (st', o) ->
-      o = Ok tt -> Forall nothard (utr (rs_src st')).
-    Proof.
-      intros HP H Ho.
-      eapply (cbe_decode_inv (bst S) (b_read S step) sh Hss Pb Pfb Eb) in H.
-      - destruct H as [[Hok HE _] Hf]. apply Hf; [exact Ho|]. apply client_nothard; assumption.
-      - intros; eapply b_read_pres; eassumption.
-      - intros; eapply b_read_eof; eassumption.
-      - intros; eapply b_read_E; eassumption.
-      - constructor; cbn; [constructor | constructor | intros _; exact HP].
-      - rewrite Ho. discriminate.
-    Qed.
-
-    Lemma uni_cbe_unmarshal b1 fuel d st' o :
-      Pb b1 ->
-      cbe_unmarshal (bst S) (b_read S step) sh D dnext dfeed dfinal true false fuel {| rs_src := b1; rs_tr := [] |} d = (st', o) ->
-      o = Ok tt -> Forall nothard (utr (rs_src st')).
-    Proof.
-      unfold cbe_unmarshal. intros HP.
-      destruct (cbe_decode (bst S) (b_read S step) sh D dnext dfeed dfinal false fuel _ d) as [st1 o1] eqn:Ed.
-      intros H Ho. injection H as Hst Hg. subst st'. rewrite Ho in Hg.
-      eapply uni_cbe_decode; [exact HP | exact Ed |]. eapply unm_dec_ok; [|exact Hg]. destruct Hss; assumption.
-    Qed.
-  End UniCbe.
 
   (* WriteTo: with a reader that never returns data together with an error *)
   Definition clean_source : Prop := forall s n s' r, step s n = (s', r) -> rr_err r = EFail -> rr_data r = [].
@@ -828,7 +891,7 @@ Section BufioProofs.
     induction i as [|j IH]; intros b Hn Hb; cbn [b_fill_loop].
     - right. split; [reflexivity | exact Hb].
     - destruct (rd S step (b_under b) RBufioFill _) as [u' r] eqn:Hrd.
-      pose proof (rd_clean _ _ _ _ _ Hrd) as Hc. apply rd_utr in Hrd.
+      pose proof (rd_clean _ _ _ _ _ Hrd) as Hc. apply rd_utr in Hrd; destruct Hrd as [Hrd _].
       destruct (rr_err r) eqn:Ee.
       + assert (Hn' : Forall nothard (rs_tr u')).
         { rewrite Hrd. constructor; [unfold nothard, hard; cbn; congruence | exact Hn]. }
@@ -874,7 +937,18 @@ Section BufioProofs.
 End BufioProofs.
 
 (* ------------------------------------------------------------------------- *)
-(* Universal entry points *)
+(* CBE entry points on the caller's reader, and the universal entry points *)
+
+Lemma cbe_entry_never_panics S step sh D dnext dfeed dfinal unm fuel u d u' o :
+  shape_sound sh ->
+  cbe_entry S step sh D dnext dfeed dfinal unm false fuel u d = (u', o) -> o <> Panic.
+Proof.
+  intros Hss. unfold cbe_entry. destruct unm.
+  - unfold cbe_unmarshal. destruct (cbe_decode _ _ _ _ _ _ _ _ _ _ _ _) as [st1 o1].
+    intro H. inversion H; subst. apply guard_not_panic. destruct Hss; assumption.
+  - unfold cbe_decode. destruct (cbe_loop _ _ _ _ _ _ _ _ _ _ _) as [st1 o1].
+    intro H. inversion H; subst. apply guard_not_panic. destruct Hss; assumption.
+Qed.
 
 Section UniversalProofs.
   Variable S : Type.
@@ -889,9 +963,30 @@ Section UniversalProofs.
 
   Let Hss : shape_sound sh := shape_sound_of_but_uleb sh Hsh.
 
+  (* UnmarshalCBE / cbe Decode on the caller's reader *)
+  Lemma cbe_direct_ok unm fuel s0 d u' o :
+    cbe_entry S step sh D dnext dfeed dfinal unm false fuel (rd0 s0) d = (u', o) ->
+    o = Ok tt -> Forall nothard (rs_tr u').
+  Proof.
+    intros H Ho.
+    eapply (cbe_entry_ok S step sh Hss (fun _ => True) (fun _ => True)) in H; eauto.
+    destruct H as [H _]. exact H.
+  Qed.
+
   (* the first byte the universal entry point sees (None: Peek failed) *)
-  Definition first_byte (s0 : S) : option N :=
-    snd (b_peek1 S step (fresh S {| rs_src := s0; rs_tr := [] |})).
+  Definition first_byte (s0 : S) : option N := snd (b_peek1 S step (fresh S (rd0 s0))).
+
+  Lemma uni_cbe_branch unm fuel b1 d m o :
+    Pb S b1 ->
+    cbe_entry (bst S) (b_read S step) sh D dnext dfeed dfinal unm false fuel {| rs_src := b1; rs_tr := [] |} d = (m, o) ->
+    o = Ok tt -> Forall nothard (rs_tr (b_under (rs_src m))).
+  Proof.
+    intros HP H Ho.
+    eapply (cbe_entry_ok (bst S) (b_read S step) sh Hss (Pb S) (Pfb S)) in H; eauto.
+    - destruct H as [_ H]. exact H.
+    - intros; eapply b_read_pres; eassumption.
+    - intros; eapply b_read_eof; eassumption.
+  Qed.
 
   Lemma cte_after_copy_not_panic (T : Type) (x : rst T * ures) st o :
     cte_after_copy T sh parse false x = (st, o) -> o <> Panic.
@@ -903,8 +998,7 @@ Section UniversalProofs.
   Qed.
 
   Lemma universal_never_panics unm fuel s0 d u' o :
-    universal S step sh D dnext dfeed dfinal parse unm true false fuel {| rs_src := s0; rs_tr := [] |} d = (u', o) ->
-    o <> Panic.
+    universal S step sh D dnext dfeed dfinal parse unm false fuel (rd0 s0) d = (u', o) -> o <> Panic.
   Proof.
     unfold universal.
     destruct (b_peek1 S step _) as [b1 first]. destruct first as [x|].
@@ -914,11 +1008,8 @@ Section UniversalProofs.
         apply cte_after_copy_not_panic in Ea.
         intro H. inversion H; subst. destruct unm; [|exact Ea].
         apply guard_not_panic. destruct Hss; assumption.
-      + destruct unm.
-        * unfold cbe_unmarshal. destruct (cbe_decode _ _ _ _ _ _ _ _ _ _ _) as [st1 o1].
-          intro H. inversion H; subst. apply guard_not_panic. destruct Hss; assumption.
-        * unfold cbe_decode. destruct (cbe_loop _ _ _ _ _ _ _ _ _ _) as [st1 o1].
-          intro H. inversion H; subst. apply guard_not_panic. destruct Hss; assumption.
+      + destruct (cbe_entry _ _ _ _ _ _ _ _ _ _ _ _) as [m o1] eqn:Ee.
+        apply cbe_entry_never_panics in Ee; [|exact Hss]. intro H. inversion H; subst. exact Ee.
       + intro H. inversion H; subst. discriminate.
     - assert (Hc : chk sh (if unm then RCePeekUnmarshal else RCePeekDecode) = true) by (destruct unm; destruct Hss; assumption).
       rewrite Hc. intro H. inversion H; subst. discriminate.
@@ -927,30 +1018,26 @@ Section UniversalProofs.
   (* CBE documents: for every reader *)
   Lemma universal_cbe_ok unm fuel s0 d u' o x :
     first_byte s0 = Some x -> choose x = UCbe ->
-    universal S step sh D dnext dfeed dfinal parse unm true false fuel {| rs_src := s0; rs_tr := [] |} d = (u', o) ->
+    universal S step sh D dnext dfeed dfinal parse unm false fuel (rd0 s0) d = (u', o) ->
     o = Ok tt -> Forall nothard (rs_tr u').
   Proof.
-    unfold first_byte, universal. intros Hf Hc.
+    unfold first_byte, universal, fresh. intros Hf Hc.
     destruct (b_peek1 S step _) as [b1 first] eqn:Ep. cbn in Hf. subst first. rewrite Hc.
     apply b_peek1_P in Ep; [|constructor]. destruct Ep as [HP _].
-    destruct unm.
-    - destruct (cbe_unmarshal _ _ _ _ _ _ _ _ _ _ _ _) as [st1 o1] eqn:Eu.
-      intros H Ho. inversion H; subst. eapply uni_cbe_unmarshal; eauto.
-    - destruct (cbe_decode _ _ _ _ _ _ _ _ _ _ _) as [st1 o1] eqn:Eu.
-      intros H Ho. inversion H; subst. eapply uni_cbe_decode; eauto.
+    destruct (cbe_entry _ _ _ _ _ _ _ _ _ _ _ _) as [m o1] eqn:Ee.
+    intros H Ho. inversion H; subst. eapply uni_cbe_branch; eauto.
   Qed.
 
   (* every document, readers that never return data together with an error *)
   Lemma universal_clean_ok unm fuel s0 d u' o :
     clean_source S step ->
-    universal S step sh D dnext dfeed dfinal parse unm true false fuel {| rs_src := s0; rs_tr := [] |} d = (u', o) ->
+    universal S step sh D dnext dfeed dfinal parse unm false fuel (rd0 s0) d = (u', o) ->
     o = Ok tt -> Forall nothard (rs_tr u').
   Proof.
     intros Hclean. unfold universal.
     destruct (b_peek1 S step _) as [b1 first] eqn:Ep. destruct first as [x|].
     - destruct (choose x) eqn:Hc.
-      + (* CTE through WriteTo *)
-        apply b_peek1_J in Ep; [|exact Hclean|constructor].
+      + apply b_peek1_J in Ep; [|exact Hclean|constructor].
         destruct (b_writeto S step fuel b1) as [b2 r] eqn:Ew.
         apply b_writeto_J in Ew; [|exact Hclean|exact Ep].
         unfold cte_after_copy. destruct r as [e text|].
@@ -959,11 +1046,8 @@ Section UniversalProofs.
           apply Ew. reflexivity.
         * intros H Ho. inversion H; subst. destruct unm; discriminate.
       + apply b_peek1_P in Ep; [|constructor]. destruct Ep as [HP _].
-        destruct unm.
-        * destruct (cbe_unmarshal _ _ _ _ _ _ _ _ _ _ _ _) as [st1 o1] eqn:Eu.
-          intros H Ho. inversion H; subst. eapply uni_cbe_unmarshal; eauto.
-        * destruct (cbe_decode _ _ _ _ _ _ _ _ _ _ _) as [st1 o1] eqn:Eu.
-          intros H Ho. inversion H; subst. eapply uni_cbe_decode; eauto.
+        destruct (cbe_entry _ _ _ _ _ _ _ _ _ _ _ _) as [m o1] eqn:Ee.
+        intros H Ho. inversion H; subst. eapply uni_cbe_branch; eauto.
       + intros H Ho. inversion H; subst. discriminate.
     - destruct (chk sh _); intros H Ho; inversion H; subst; discriminate.
   Qed.
@@ -1012,42 +1096,23 @@ Proof.
   - destruct Hss, f; assumption.
 Qed.
 
-Definition rd0 {S} (s0 : S) : rst S := {| rs_src := s0; rs_tr := [] |}.
-
-Lemma read_cbe_partial :
+Lemma read_cbe_full :
   forall (S : Type) (step : S -> N -> S * rres) (sh : shape) (D : Type) (dnext : D -> action)
-         (dfeed : D -> bytes -> D) (dfinal : D -> bool) (unm : bool) (fuel : nat) (s0 : S) (d : D) st' o,
+         (dfeed : D -> bytes -> D) (dfinal : D -> bool) (unm : bool) (fuel : nat) (s0 : S) (d : D) u' o,
     all_checked_but_uleb sh = true ->
-    (if unm then cbe_unmarshal S step sh D dnext dfeed dfinal true false fuel (rd0 s0) d
-     else cbe_decode S step sh D dnext dfeed dfinal false fuel (rd0 s0) d) = (st', o) ->
-    Exists fatal (rs_tr st') -> o = Err.
+    cbe_entry S step sh D dnext dfeed dfinal unm false fuel (rd0 s0) d = (u', o) ->
+    Exists hard (rs_tr u') -> o <> Ok tt /\ o <> Panic.
 Proof.
-  intros S step sh D dnext dfeed dfinal unm fuel s0 d st' o Hsh H Hex.
-  destruct (outcome_err_dec o) as [E|Hn]; [exact E|exfalso].
-  eapply ok_events_no_fatal; [|exact Hex].
-  destruct unm; [eapply cbe_unmarshal_ok_events | eapply cbe_decode_ok_events]; eauto.
-Qed.
-
-Lemma read_cbe_full_if_checked :
-  forall (S : Type) (step : S -> N -> S * rres) (sh : shape) (D : Type) (dnext : D -> action)
-         (dfeed : D -> bytes -> D) (dfinal : D -> bool) (unm : bool) (fuel : nat) (s0 : S) (d : D) st' o,
-    all_checked sh = true ->
-    (if unm then cbe_unmarshal S step sh D dnext dfeed dfinal true false fuel (rd0 s0) d
-     else cbe_decode S step sh D dnext dfeed dfinal false fuel (rd0 s0) d) = (st', o) ->
-    Exists hard (rs_tr st') -> o = Err.
-Proof.
-  intros S step sh D dnext dfeed dfinal unm fuel s0 d st' o Hsh H Hex.
-  pose proof (all_checked_but_uleb_of_all sh Hsh) as Hb.
-  destruct (outcome_err_dec o) as [E|Hn]; [exact E|exfalso].
-  eapply ok_events_no_hard; [apply all_checked_uleb; exact Hsh | | exact Hex].
-  destruct unm; [eapply cbe_unmarshal_ok_events | eapply cbe_decode_ok_events]; eauto.
+  intros S step sh D dnext dfeed dfinal unm fuel s0 d u' o Hsh H Hex. split.
+  - intro Ho. eapply nothard_no_exists; [|exact Hex]. eapply cbe_direct_ok; eauto.
+  - eapply cbe_entry_never_panics; [apply shape_sound_of_but_uleb; exact Hsh | exact H].
 Qed.
 
 Lemma read_cte_full :
   forall (S : Type) (step : S -> N -> S * rres) (sh : shape) (parse : bytes -> bool)
          (unm : bool) (fuel : nat) (s0 : S) st' o,
     all_checked_but_uleb sh = true ->
-    (if unm then cte_unmarshal S step sh parse true false fuel (rd0 s0)
+    (if unm then cte_unmarshal S step sh parse false fuel (rd0 s0)
      else cte_decode S step sh parse false fuel (rd0 s0)) = (st', o) ->
     Exists hard (rs_tr st') -> o = Err.
 Proof.
@@ -1069,7 +1134,7 @@ Lemma read_universal_cbe :
          (unm : bool) (fuel : nat) (s0 : S) (d : D) (x : N) u' o,
     all_checked_but_uleb sh = true ->
     first_byte S step s0 = Some x -> choose x = UCbe ->
-    universal S step sh D dnext dfeed dfinal parse unm true false fuel (rd0 s0) d = (u', o) ->
+    universal S step sh D dnext dfeed dfinal parse unm false fuel (rd0 s0) d = (u', o) ->
     Exists hard (rs_tr u') -> o <> Ok tt /\ o <> Panic.
 Proof.
   intros S step sh D dnext dfeed dfinal parse unm fuel s0 d x u' o Hsh Hf Hc H Hex. split.
@@ -1083,7 +1148,7 @@ Lemma read_universal_clean :
          (unm : bool) (fuel : nat) (s0 : S) (d : D) u' o,
     all_checked_but_uleb sh = true ->
     clean_source S step ->
-    universal S step sh D dnext dfeed dfinal parse unm true false fuel (rd0 s0) d = (u', o) ->
+    universal S step sh D dnext dfeed dfinal parse unm false fuel (rd0 s0) d = (u', o) ->
     Exists hard (rs_tr u') -> o <> Ok tt /\ o <> Panic.
 Proof.
   intros S step sh D dnext dfeed dfinal parse unm fuel s0 d u' o Hsh Hcl H Hex. split.
@@ -1092,43 +1157,43 @@ Proof.
 Qed.
 
 (* ------------------------------------------------------------------------- *)
-(* Witnesses of the defects (computed on the model with the current shape and a scheduled reader) *)
+(* Witnesses (computed on the model with the current shape and a scheduled reader) *)
 
 Definition wit_sched (k : N) : rsched := {| rsc_chunk := 0; rsc_faults := [{| f_call := k; f_dirty := true |}]; rsc_sticky := false |}.
 Definition wit_cbe_doc : bytes := [129; 128; 128; 0; 1].          (* 81 80 80 00 01: version as a 3-byte ULEB, then the value 1 *)
 Definition wit_cbe_script : list prim := [PUint8; PUleb; PTypeOrEOF; PTypeOrEOF].
+Definition wit_edge_doc : bytes := [129; 0; 151; 1; 2; 3].        (* 81 00 97 01 02 03: an edge *)
+Definition wit_edge_script : list prim := [PUint8; PUleb; PTypeOrEOF; PTypeOrEOF; PTypeOrEOF; PTypeOrEOF; PTypeOrEOF].
 Definition wit_cte_doc : bytes := [99; 48; 32; 49].               (* "c0 1" *)
 
-(* the third Read returns the byte 0x80 of the ULEB together with an error; the decoder reports success *)
-Lemma cbe_swallow_witness :
-  let '(st, o) := cbe_decode rsrc (sched_rstep (wit_sched 2)) current_shape (list prim) script_next script_feed
-                    (fun _ => true) false 100 (rd0 (rsrc0 wit_cbe_doc)) wit_cbe_script in
-  o = Ok tt /\ Exists hard (rs_tr st).
-Proof.
-  vm_compute. split; [reflexivity|]. do 3 right. left. reflexivity.
-Qed.
+(* REPAIRED (e4074d6): the third Read returns the byte 0x80 of the ULEB together with an error; Reader.Read hands the
+   byte on and reports the error at the next call: Decode fails after exactly three calls on the source *)
+Lemma cbe_data_with_error_witness (unm : bool) :
+  rmodel (if unm then RECbeUnmarshal else RECbeDecode) false wit_cbe_doc wit_cbe_script true (wit_sched 2)
+  = ([{| re_site := RCbeRead; re_len := 1; re_res := {| rr_data := [129]; rr_err := ENone |} |};
+      {| re_site := RCbeRead; re_len := 1; re_res := {| rr_data := [128]; rr_err := ENone |} |};
+      {| re_site := RCbeRead; re_len := 1; re_res := {| rr_data := [128]; rr_err := EFail |} |}], OErr).
+Proof. destruct unm; vm_compute; reflexivity. Qed.
 
-(* the first Read returns the whole CTE document together with an error; UnmarshalCE / Decode report success *)
-Lemma universal_cte_swallow_witness unm :
+(* REPAIRED (5799b55, the Unmarshal epilogue returns): the edge document failing cleanly at its fourth Read *)
+Lemma cbe_edge_witness :
+  snd (rmodel RECbeUnmarshal false wit_edge_doc wit_edge_script true
+         {| rsc_chunk := 0; rsc_faults := [{| f_call := 3; f_dirty := false |}]; rsc_sticky := false |}) = OErr.
+Proof. vm_compute. reflexivity. Qed.
+
+(* OPEN: the first Read returns the whole CTE document together with an error; UnmarshalCE / Decode report success *)
+Lemma universal_cte_swallow_witness (unm : bool) :
   let '(u, o) := universal rsrc (sched_rstep (wit_sched 0)) current_shape (list prim) script_next script_feed
-                    (fun _ => true) (fun _ => true) unm true false 100 (rd0 (rsrc0 wit_cte_doc)) [] in
+                    (fun _ => true) (fun _ => true) unm false 100 (rd0 (rsrc0 wit_cte_doc)) [] in
   o = Ok tt /\ Exists hard (rs_tr u).
 Proof.
   destruct unm; vm_compute; (split; [reflexivity|]); right; left; reflexivity.
 Qed.
 
-(* an Unmarshal whose OnError epilogue does not return never returns the error *)
-Lemma unmarshal_hang_witness :
-  snd (cbe_unmarshal rsrc (sched_rstep {| rsc_chunk := 0; rsc_faults := [{| f_call := 1; f_dirty := false |}]; rsc_sticky := false |})
-         current_shape (list prim) script_next script_feed (fun _ => true) false false 100
-         (rd0 (rsrc0 wit_cbe_doc)) wit_cbe_script) = Hang.
-Proof. vm_compute. reflexivity. Qed.
-
 (* PassThroughPanics lets the panic out (by design) *)
 Lemma pass_through_witness :
-  snd (cbe_decode rsrc (sched_rstep {| rsc_chunk := 0; rsc_faults := [{| f_call := 1; f_dirty := false |}]; rsc_sticky := false |})
-         current_shape (list prim) script_next script_feed (fun _ => true) true 100
-         (rd0 (rsrc0 wit_cbe_doc)) wit_cbe_script) = Panic.
+  snd (rmodel RECbeDecode true wit_cbe_doc wit_cbe_script true
+         {| rsc_chunk := 0; rsc_faults := [{| f_call := 1; f_dirty := false |}]; rsc_sticky := false |}) = OPanic.
 Proof. vm_compute. reflexivity. Qed.
 
 (* an unchecked write site would let a failure through: the shape hypothesis is needed *)
@@ -1139,64 +1204,21 @@ Lemma unchecked_site_witness :
 Proof. vm_compute. reflexivity. Qed.
 
 (* ------------------------------------------------------------------------- *)
-(* The full property for the current shape, per mechanism, and its refutations *)
-
-Definition read_cbe_full_stmt : Prop :=
-  forall (S : Type) (step : S -> N -> S * rres) (D : Type) (dnext : D -> action) (dfeed : D -> bytes -> D)
-         (dfinal : D -> bool) (unm : bool) (fuel : nat) (s0 : S) (d : D) st' o,
-    (if unm then cbe_unmarshal S step current_shape D dnext dfeed dfinal true false fuel (rd0 s0) d
-     else cbe_decode S step current_shape D dnext dfeed dfinal false fuel (rd0 s0) d) = (st', o) ->
-    Exists hard (rs_tr st') -> o = Err.
+(* The full property for the universal entry points, and its refutation *)
 
 Definition read_universal_full_stmt : Prop :=
   forall (S : Type) (step : S -> N -> S * rres) (D : Type) (dnext : D -> action) (dfeed : D -> bytes -> D)
          (dfinal : D -> bool) (parse : bytes -> bool) (unm : bool) (fuel : nat) (s0 : S) (d : D) u' o,
-    universal S step current_shape D dnext dfeed dfinal parse unm true false fuel (rd0 s0) d = (u', o) ->
+    universal S step current_shape D dnext dfeed dfinal parse unm false fuel (rd0 s0) d = (u', o) ->
     Exists hard (rs_tr u') -> o <> Ok tt /\ o <> Panic.
-
-Definition unmarshal_returns_stmt : Prop :=
-  forall (S : Type) (step : S -> N -> S * rres) (D : Type) (dnext : D -> action) (dfeed : D -> bytes -> D)
-         (dfinal : D -> bool) (onerr : bool) (fuel : nat) (s0 : S) (d : D) st' o,
-    cbe_unmarshal S step current_shape D dnext dfeed dfinal onerr false fuel (rd0 s0) d = (st', o) ->
-    Exists hard (rs_tr st') -> o = Err.
-
-Lemma read_cbe_full_refuted : ~ read_cbe_full_stmt.
-Proof.
-  intro H. pose proof cbe_swallow_witness as W. cbv zeta in W.
-  destruct (cbe_decode rsrc (sched_rstep (wit_sched 2)) current_shape (list prim) script_next script_feed
-              (fun _ => true) false 100 (rd0 (rsrc0 wit_cbe_doc)) wit_cbe_script) as [st o] eqn:E.
-  destruct W as [Wo Wh].
-  specialize (H rsrc (sched_rstep (wit_sched 2)) (list prim) script_next script_feed (fun _ => true) false 100%nat
-                (rsrc0 wit_cbe_doc) wit_cbe_script st o E Wh).
-  congruence.
-Qed.
 
 Lemma read_universal_full_refuted : ~ read_universal_full_stmt.
 Proof.
   intro H. pose proof (universal_cte_swallow_witness false) as W. cbv zeta in W.
   destruct (universal rsrc (sched_rstep (wit_sched 0)) current_shape (list prim) script_next script_feed
-              (fun _ => true) (fun _ => true) false true false 100 (rd0 (rsrc0 wit_cte_doc)) []) as [u o] eqn:E.
+              (fun _ => true) (fun _ => true) false false 100 (rd0 (rsrc0 wit_cte_doc)) []) as [u o] eqn:E.
   destruct W as [Wo Wh].
   destruct (H rsrc (sched_rstep (wit_sched 0)) (list prim) script_next script_feed (fun _ => true) (fun _ => true) false 100%nat
               (rsrc0 wit_cte_doc) [] u o E Wh) as [Hn _].
   exact (Hn Wo).
 Qed.
-
-Lemma unmarshal_returns_refuted : ~ unmarshal_returns_stmt.
-Proof.
-  intro H. pose proof unmarshal_hang_witness as W.
-  set (sc := {| rsc_chunk := 0; rsc_faults := [{| f_call := 1; f_dirty := false |}]; rsc_sticky := false |}) in *.
-  destruct (cbe_unmarshal rsrc (sched_rstep sc) current_shape (list prim) script_next script_feed (fun _ => true) false false 100
-              (rd0 (rsrc0 wit_cbe_doc)) wit_cbe_script) as [st o] eqn:E.
-  cbn [snd] in W. subst o.
-  assert (Hh : Exists hard (rs_tr st)).
-  { assert (Et : st = fst (cbe_unmarshal rsrc (sched_rstep sc) current_shape (list prim) script_next script_feed (fun _ => true) false false 100
-              (rd0 (rsrc0 wit_cbe_doc)) wit_cbe_script)) by (rewrite E; reflexivity).
-    rewrite Et. vm_compute. left. reflexivity. }
-  specialize (H rsrc (sched_rstep sc) (list prim) script_next script_feed (fun _ => true) false 100%nat
-                (rsrc0 wit_cbe_doc) wit_cbe_script st Hang E Hh).
-  discriminate.
-Qed.
-
-Lemma full_refuted : ~ (read_cbe_full_stmt /\ read_universal_full_stmt /\ unmarshal_returns_stmt).
-Proof. intros (H & _ & _). exact (read_cbe_full_refuted H). Qed.
